@@ -29,12 +29,18 @@ def gen_case(rng, tier, ks=None):
     for _ in range(rng.randint(0, 3)):
         k = key if rng.random() < 0.3 else bytes(rng.randrange(256) for _ in range(ks))
         prior.append(("set", k, rng.choice([b"p", b"q" * 33])))
-    n = (rng.randint(1, 3) if ks >= 20 else (rng.randint(2, 7) if tier == "quick" else rng.randint(4, 20)))
+    n = (rng.randint(1, 3) if ks >= 20 else (rng.randint(2, 4) if ks >= 7 else (rng.randint(2, 7) if tier == "quick" else rng.randint(4, 20))))
     stream = []
     for _ in range(n):
         r = rng.random()
         if r < 0.25:
             k = key
+        elif r < 0.45:
+            # differs from the tracked key at `bit` and in EVERY later bit (xor = 2^m - 1: the worst case for any
+            # arithmetic shortcut computing the highest differing bit)
+            bit = rng.randrange(ks * 8)
+            x = int.from_bytes(key, "big") ^ ((1 << (ks * 8 - bit)) - 1)
+            k = x.to_bytes(ks, "big")
         else:
             bit = rng.randrange(ks * 8)
             kk = bytearray(key)
@@ -94,6 +100,9 @@ def run_impl(case):
         after = proof_obs(p)
         outs.append([res, after, bytes(t.root_hash)])
         tv, tb = t._get(case["key"])
+        if res is not None:
+            # rejected: the proof is (must be) unchanged and now stale; re-create it from the tree
+            p = SparseMerkleProof(case["key"], tv, tb)
         aux.append({"before": before, "after": after, "res": res, "tree_value": bytes(tv),
                     "tree_branch": [bytes(x) for x in tb], "root": bytes(t.root_hash), "full_len": len(ups)})
     return outs, aux
@@ -113,7 +122,6 @@ def oracle(case, outs, aux):
                 return "a node-hash list not reaching the first differing bit was not rejected with ValidationError"
             if a["after"] != a["before"]:
                 return "a rejected update changed the proof"
-            ok = False
         else:
             if a["res"] is not None:
                 return f"a sufficient node-hash list was rejected: {a['res']!r}"
@@ -157,6 +165,7 @@ def check(tier, seed):
     rng = random.Random(seed)
     n = 50 if tier == "quick" else 800
     cases = corpus() + [gen_case(rng, tier) for _ in range(n)] + [gen_case(rng, tier, 32) for _ in range(1 if tier == "quick" else 10)]
+    cases += [gen_case(rng, tier, ks) for ks in ([7, 8, 8, 9] if tier == "quick" else [7, 8, 9, 12, 16] * 6)]
     terms = []
     for case in cases:
         outs, aux = run_impl(case)
